@@ -302,3 +302,15 @@ Definition cs_point (names : list Z) (specs : Z -> option dspec) (conf : list (Z
 Definition to_dict (names : list Z) (point : list (option atom)) : list (Z * option atom) := combine names point.
 Fixpoint lookup_opt (n : Z) (d : list (Z * option atom)) : option (option atom) :=
   match d with [] => None | (k, v) :: t => if n =? k then Some v else lookup_opt n t end.
+
+(* ---------------------------------------------- Optimizer._filter_duplicated (initial random phase of ask) ---------------------------------------------- *)
+(* Every random ask draws a batch of candidates, removes the repeated ones (keeping the FIRST copy) and the ones already handed
+   out, and hands out the first survivors; when nothing survives the unfiltered batch is used.  Points are Z tokens. *)
+Fixpoint zin (x : Z) (l : list Z) : bool := match l with [] => false | y :: t => (x =? y) || zin x t end.
+Fixpoint dedup_first (seen : list Z) (l : list Z) : list Z :=
+  match l with
+  | [] => []
+  | x :: t => if zin x seen then dedup_first seen t else x :: dedup_first (x :: seen) t
+  end.
+Definition filter_dup (hist batch : list Z) : list Z :=
+  match dedup_first hist batch with [] => batch | r => r end.
